@@ -56,6 +56,11 @@ def must_raise(p):
         return "unknown mode"
     if isinstance(p["vmax"], list) and len(p["vmax"]) not in (1, p["C"]):
         return "vmax of wrong length"
+    nums = [p["xmin"], p["xmax"], p["stock"], p["min_transfer"]] + vmax_list(p)
+    if any(isinstance(x, float) and math.isnan(x) for x in nums):
+        return "a parameter is NaN (no plan with whole-microlitre volumes exists)"
+    if p["mode"] == "log" and p["xmin"] < 0:
+        return "log spacing down to a negative concentration"
     return None
 
 
@@ -432,6 +437,15 @@ INVALID = [
     dict(xmin=1, xmax=10, R=2, C=3, stock=20, mode="log", vmax=[100, 100], min_transfer=1),
     dict(xmin=1, xmax=10, R=2, C=3, stock=20, mode="log", vmax=[100, 100, 100, 100], min_transfer=1),
     dict(xmin=1, xmax=10, R=2, C=1, stock=20, mode="log", vmax=[100, 100], min_transfer=1),
+    # requests that cannot be met because a number is not one: a plan must not come back with NaN volumes
+    dict(xmin=float("nan"), xmax=10, R=2, C=3, stock=20, mode="log", vmax=100, min_transfer=1),
+    dict(xmin=1, xmax=float("nan"), R=2, C=3, stock=20, mode="linear", vmax=100, min_transfer=1),
+    dict(xmin=1, xmax=10, R=2, C=3, stock=float("nan"), mode="log", vmax=100, min_transfer=1),
+    dict(xmin=1, xmax=10, R=2, C=3, stock=20, mode="log", vmax=float("nan"), min_transfer=1),
+    dict(xmin=1, xmax=10, R=2, C=3, stock=20, mode="linear", vmax=[100, float("nan"), 100], min_transfer=1),
+    dict(xmin=1, xmax=10, R=2, C=3, stock=20, mode="log", vmax=100, min_transfer=float("nan")),
+    dict(xmin=-1, xmax=10, R=2, C=3, stock=20, mode="log", vmax=100, min_transfer=1),
+    dict(xmin=-0.5, xmax=9, R=8, C=4, stock=90, mode="log", vmax=[1000, 100, 1000, 1000], min_transfer=10),
 ]
 
 
